@@ -272,6 +272,10 @@ func (s Subscription) Merge(n Subscription) Subscription {
 		s.Qos = n.Qos // [MQTT-3.3.4-2]
 	}
 
+	if n.RetainAsPublished {
+		s.RetainAsPublished = true // [MQTT-3.3.1-12] the flag is kept if any matching subscription asked for it, whatever the gather order
+	}
+
 	if n.NoLocal {
 		s.NoLocal = true // [MQTT-3.8.3-3]
 	}
